@@ -998,8 +998,12 @@ MUTATION_KINDS = ('end_deleted', 'end_swapped', 'start_deleted', 'else_duplicate
                   'except_after_else', 'finally_mixed', 'unknown_tag', 'unknown_attribute',
                   'duplicated_attribute', 'name_and_expr', 'neither_name_nor_expr',
                   'batch_only_without_batch', 'non_simple_prefix', 'valueless_needs_value',
-                  'bad_shorthand_expression', 'bad_let_expression', 'bad_explicit_expression')
-ATTR_KINDS = MUTATION_KINDS[8:]
+                  'bad_shorthand_expression', 'bad_let_expression', 'bad_explicit_expression',
+                  'shorthand_and_name', 'near_continuation_tag')
+ATTR_KINDS = MUTATION_KINDS[8:19]
+# letters-only fragments / near misses of the continuation tag names: unknown tags, wherever they stand
+NEAR_CONTINUATIONS = ('els', 'lse', 'el', 'ls', 'se', 'e', 'l', 's', 'eli', 'lif', 'elf', 'exc', 'excep', 'cept',
+                      'fin', 'final', 'inally', 'elsee', 'eelse', 'elifs', 'excepts', 'finallyy')
 
 
 def else_with_arguments(toks):
@@ -1167,6 +1171,23 @@ def mutations(toks, rng, per_kind=3):
         a = rng.choice([x for x in t[i]['attrs'] if x[0] is not None and x[0].endswith('expr')])
         a[1] = rng.choice(BAD_EXPRS)
         yield 'bad_explicit_expression', t, i
+    # the unnamed (shorthand) name together with an explicit name= / type=: two names
+    named = [i for i in tabled if toks[i]['attrs'] and toks[i]['attrs'][0][0] is None and
+             not toks[i]['attrs'][0][2] and toks[i]['attrs'][0][1] is not None]
+    for i in pick(named):
+        t = _copy(toks)
+        a = t[i]['attrs']
+        nk = 'type' if t[i]['name'] == 'raise' else 'name'
+        if any(x[0] in (nk, 'expr') for x in a):
+            continue
+        a.insert(rng.randint(1, len(a)), [nk, rng.choice(SIMPLE_NAMES + (a[0][1],)), rng.random() < 0.3])
+        yield 'shorthand_and_name', t, i
+    # an unknown tag named like a fragment of a continuation tag, directly inside a block (or at top level)
+    for i in pick(starts + [None]):
+        t = _copy(toks)
+        at = 0 if i is None else i + 1
+        t[at:at] = [tag('single', rng.choice(NEAR_CONTINUATIONS), [])]
+        yield 'near_continuation_tag', t, None
 
 
 # =====================================================================================
